@@ -729,6 +729,18 @@ def binary_check(ctx, binp):
                 continue
             # what was acknowledged and not deleted afterwards is served by a second start on the same directory
             deleted = {x["path"] for x in trace if x["kind"] in ("mdel", "blobdel") and x["status"] == 202}
+            # (the read-only start also finds an emptied repository and an idle upload directory: reading them and stopping
+            #  must leave every file and directory where it is)
+            os.makedirs(os.path.join(root, "emptied", "blobs", "sha256"), exist_ok=True)
+            with open(os.path.join(root, "emptied", "oci-layout"), "w") as fh:
+                fh.write('{"imageLayoutVersion":"1.0.0"}')
+            with open(os.path.join(root, "emptied", "index.json"), "w") as fh:
+                fh.write('{"schemaVersion":2,"mediaType":"application/vnd.oci.image.index.v1+json","manifests":[]}')
+            if os.path.isdir(os.path.join(root, "r")):
+                os.makedirs(os.path.join(root, "r", "_uploads"), exist_ok=True)
+            tree = lambda: sorted((os.path.relpath(os.path.join(dp, x), root), os.path.getsize(os.path.join(dp, x)) if x in fs else -1)
+                                  for dp, ds, fs in os.walk(root) for x in ds + fs)
+            before = tree()
             pr2 = Proc(exe, flag_args(dict(conf, ro=True), root), cwd=ctx.work)
             if not pr2.up:
                 rc2, out2 = pr2.term()
@@ -743,9 +755,16 @@ def binary_check(ctx, binp):
                     ctx.violation("acknowledged %s is not served after SIGTERM and restart: GET %s -> %s" % (r["kind"], r["get"], res["status"]), dict(rep, trace=trace), "C19:sigterm-lost")
                     nbad += 1
                     break
+            for rp_ in ("emptied", "r"):
+                pr2.req("GET", "/v2/%s/tags/list" % rp_, b"", {})
             rc2, out2 = pr2.term()
             if rc2 != 0:
                 ctx.violation("read-only olareg serve exited with %s after SIGTERM: %s" % (rc2, out2[-300:]), rep, "C19:sigterm-exit")
+                nbad += 1
+            after = tree()
+            if after != before:
+                ctx.violation("olareg serve --store-ro changed its storage directory (reads, then SIGTERM): removed %s, added or resized %s"
+                              % ([x[0] for x in before if x not in after][:4], [x[0] for x in after if x not in before][:4]), dict(rep, trace=trace), "C19:ro-storage-changed")
                 nbad += 1
         shutil_rmtree(root)
     ni, ibad = inflight_check(ctx, exe)
